@@ -63,7 +63,7 @@ PROPS["C05"] = {
                   "codec (as C18). Zone independence is tied by running the zone-free model against the implementation under each zone "
                   "(civil date-times that do not exist in the zone are not generated - the property exempts them); the theorem-level "
                   "zone argument is C13's (go_date_existing).",
-    "rule": "per zone: each message type with time-valued fields (all 65 under UTC) x value sets (every 4th from the edge pool) -> Marshal, "
+    "rule": "per zone: each message type with time-valued fields (all 65 under UTC) x value sets (every 4th from the edge pool) -> Marshal,  Plus: every date-bearing message decoded with its dates on each zone's offset-change days and at round instants (1970, 2000, 1e9 s, 2^31-1 s) seen from each zone; Go-side field-by-field round trip; encodings overwritten and re-encoded."
             "Unmarshal of the encoding, of a one-byte mutation and of the encoding with random bytes outside all fields; dispatchers on all "
             "256 codes x 3 protocol ids, all lengths 0..128, real encodings and random payloads. Non-trivial = 64-byte buffer / any marshal; "
             "distinct = distinct Coq case terms.",
@@ -78,7 +78,7 @@ PROPS["C01"] = {
     "technique": "Coq: generated request layouts proved equal to a flat protocol description; generic codec image theorem; differential run through a recording driver incl. call histories",
     "level_text": "For all 32 operations and all in-domain argument values: the request struct the operation fills (GENERATED layout, fields by name) is field for field the flat protocol description (proto_match, re-proved against the regenerated layouts every run), hence by the generic C18 image theorem the bytes handed to the driver are exactly proto_request (0x17, function code, serial LE at 4, arguments at their offsets, zero elsewhere); exactly one driver call; sequences of calls send the concatenation of what each call alone sends. The model is compared with the implementation through a recording driver on generated calls and on histories on one client and on two clients used alternately.",
     "level_note": "Trusted: Coq kernel; translator; Model/Ops.v's transcription of uhppote/*.go (checked by the correspondence run: returned values and recorded driver calls must equal the model's); SetTime is modelled on the civil fields of the argument in its own location. History-independence is a theorem of the (stateless) model; that the implementation is stateless too is what the history streams test.",
-    "rule": "every operation x rounds with generated ids/arguments/configurations and a valid (1 in 10: mutated) reply; GetDevices with 0-3 replies; histories of 6-15 calls on one client and two clients alternately. Non-trivial = controller id != 0; distinct = distinct Coq case terms.",
+    "rule": "every operation x rounds with generated ids/arguments/configurations and a valid (1 in 10: mutated) reply; GetDevices with 0-3 replies; histories of 6-15 calls on one client and two clients alternately. Non-trivial = controller id != 0; distinct = distinct Coq case terms. Plus: SetTime under four HOST zones with arguments in other Locations around the host's clock changes; dates around year ends.",
     "trusted_base": API_TRUST,
 }
 PROPS["C06"] = {
@@ -86,7 +86,7 @@ PROPS["C06"] = {
     "technique": "Coq: routing closure proved equal to the specification's routing function for all configurations; differential run through a recording driver over generated configurations",
     "level_text": "For every client configuration (any list of controllers with later duplicates winning, any protocol string, valid / 0.0.0.0 / port-0 / absent addresses, broadcast address set or not) and every operation the endpoint and transport chosen by sendto equal spec_route; exactly one driver call per accepted call, none for a rejected one; discovery broadcasts. Tied by the recording driver over generated configurations (0-4 controllers, duplicates, 7 protocol strings, 5 address classes, 4 broadcast ports).",
     "level_note": "Trusted: as C01. Partial: that the ut0311 driver performs exactly one write from the configured bind address and that no other endpoint hears it is observed by the net engine on loopback sockets, not proved.",
-    "rule": "as C01 with a generated configuration for every call. Non-trivial = id != 0.",
+    "rule": "as C01 with a generated configuration for every call. Non-trivial = id != 0. Plus: call histories on one client with SetAddress early; controllers configured at the broadcast address; a socket-level stream (real driver, loopback farm recording source address, transport and count per call for four bind addresses, SetAddress included).",
     "trusted_base": API_TRUST,
 }
 PROPS["C07"] = {
@@ -105,7 +105,7 @@ PROPS["C02"] = {
     "technique": "Coq: generated reply layouts proved equal to a flat protocol table; per-field decoder = protocol decoding for all byte strings; end-to-end theorem (API result admitted by the flat reply specification for all payloads, all operations); the same specification evaluated as oracle on the implementation's results",
     "level_text": "Proved END TO END (C02_reply_interpreted, C02_api_result_admitted): for every operation, every configuration and ALL payloads behind a correct 8-byte header, the result the API model computes from the decoded reply is admitted by the flat protocol specification Spec/ReplySpec.v (which reads bytes by offset and names no struct or field): every result field is the protocol decoding of its bytes, the sentinels (card 0/0xffffffff, event index 0, type 0xff, profile 0), echo checks, 'status event iff index != 0' and address completion are honoured, a field outside its domain makes the call fail or comes back as its 'no value', decoding never panics. Ingredients, each a theorem of its own: the reply struct of each of the 31 operations (regenerated from messages/*.go every run) is the flat protocol table; for every field kind and ALL byte strings of its width the decoder's verdict equals the protocol decoding; only a 64-byte datagram with the addressed serial number is decoded. Tie: the same specification is evaluated as the oracle on every result the implementation returns, incl. a stream decoded under daylight-saving zones on the days of the change.",
     "level_note": "Trusted: as C01; the flat reply specification Spec/ReplySpec.v (hand-written from the protocol table and the property text).",
-    "rule": "every reply-bearing operation x rounds: a valid reply (echo/sentinel fields forced to requested / 0 / 0xffffffff / other), then per field of the reply struct: byte fields over a boundary pool (thorough: all 256 values), HH:mm byte pairs (boundary + random), 20 date patterns (valid shapes, day/month 0/13/32, Feb 29/30, nibbles A-F in each position, 00000000, 00010101), date-time x time patterns, system date/time patterns, bit-walks/zero/all-ones of multi-byte integers, random and sparse-random payloads; GetStatus also with protocol id 0x19. Non-trivial = all (header correct); distinct = distinct Coq case terms.",
+    "rule": "every reply-bearing operation x rounds: a valid reply (echo/sentinel fields forced to requested / 0 / 0xffffffff / other), then per field of the reply struct: byte fields over a boundary pool (thorough: all 256 values), HH:mm byte pairs (boundary + random), 20 date patterns (valid shapes, day/month 0/13/32, Feb 29/30, nibbles A-F in each position, 00000000, 00010101), date-time x time patterns, system date/time patterns, bit-walks/zero/all-ones of multi-byte integers, random and sparse-random payloads; GetStatus also with protocol id 0x19. Non-trivial = all (header correct); distinct = distinct Coq case terms. Plus: replies decoded under daylight-saving zones on the days of the change; all date fields zero / impossible / non-decimal at once; date pairs a coarse cache key would confuse; every sixth call repeated after the caller overwrote the first result.",
     "trusted_base": API_TRUST,
 }
 
@@ -114,7 +114,7 @@ PROPS["C03"] = {
     "technique": "Coq: theorems over all finite datagram sequences about sendto and the broadcast filter; differential run of exhaustive short class sequences through a recording driver on the three paths",
     "level_text": "Proved for every configuration, operation and finite sequence of datagrams: a non-error result is based on a delivered datagram that arrived, is 64 bytes long, passes the protocol-id gate (0x17, or 0x19 with function 0x20), carries the operation's function code and serial number S, and the result is the decoding of exactly that datagram; on the broadcast path any prefix of wrong-length / other-serial datagrams is skipped and the result is a function of the first accepted datagram only; on every path a delivered wrong-length or wrong-serial datagram, a wrong protocol id or a wrong function code fails the call. Tied by exhaustive class sequences (9 classes, length <= 2 quick / <= 3 thorough) and random longer ones through the recording driver on the broadcast, UDP and TCP routes, with the C02 reply oracle deciding the accepted datagram's interpretation.",
     "level_note": "Partial: the receive loops of the real ut0311 driver (deadline, one read per datagram, SetAddress returning without reading) are modelled in Model/Driver.v and exercised on loopback sockets by the net engine; what the kernel delivers is observed, not proved. Trusted: as C01.",
-    "rule": "per path x sampled operation (GetStatus always): all sequences over the 9 datagram classes up to the length bound, random sequences of 3-12, and a driver error. Non-trivial = at least one datagram.",
+    "rule": "per path x sampled operation (GetStatus always): all sequences over the 9 datagram classes up to the length bound, random sequences of 3-12, and a driver error. Non-trivial = at least one datagram. Plus a socket-level stream: the real ut0311 driver against a loopback controller that answers with 10 kinds of malformed reply (63/65/128/1024 bytes, other serial, other function, SOM 0x18/0x19, empty, split 40+24) on all three paths, with and without debug mode.",
     "trusted_base": API_TRUST,
 }
 PROPS["C11"] = {
@@ -122,7 +122,7 @@ PROPS["C11"] = {
     "technique": "Coq: discovery = order-preserving filter-map over any reply sequence (induction via flat_map), noise-insertion theorem; differential run with reply multisets and interleaved malformed datagrams",
     "level_text": "Proved for all reply sequences: GetDevices never fails because of what arrived; the result of a concatenation is the concatenation of the results (arrival order, duplicates kept); a datagram that does not decode contributes nothing wherever it is inserted; a decodable 64-byte reply contributes exactly one entry, the protocol decoding of that reply with the address completed by the broadcast port and the configured name. Tied by generated multisets (0-12 replies, duplicate serials, permutations) with wrong-length / wrong-id / wrong-function / bad-BCD datagrams interleaved; the oracle walks replies and entries in lockstep (a BCD-valid but impossible date may be listed with the zero date or dropped).",
     "level_note": "Partial: the collecting loop of ut0311.Broadcast (everything that arrives before the timeout) is exercised on loopback sockets by the net engine. Trusted: as C01.",
-    "rule": "generated discovery rounds; non-trivial = at least one datagram; distinct = distinct Coq case terms.",
+    "rule": "generated discovery rounds; non-trivial = at least one datagram; distinct = distinct Coq case terms. Plus a socket-level stream: real Broadcast on loopback, six controllers and a factory-blank one answering, with non-reply datagrams in between.",
     "trusted_base": API_TRUST,
 }
 
@@ -150,7 +150,7 @@ PROPS["C14"] = {
     "technique": "Coq: model of every MarshalJSON/UnmarshalJSON and String()/parser pair over JSON value trees; round-trip theorems for all in-domain values (digit formatting by complete enumeration lifted to arbitrary surrounding text, addresses via the C15 theorems), rejection theorems, a refutation theorem for the known finding; differential run through the real encoding/json under 10 (thorough: all installed) process zones",
     "level_text": "Proved (32 theorems): decoding the encoding returns the value for every calendar date of years 1..9999, every date-time with ANY non-empty zone abbreviation (so -03, +0545 and every name), all 1441 HH:mm values, all PINs 0..999999, the three control states, the 13 task types (name form, also through the text parser), all 65536 versions, all 2^48 MAC addresses, all addresses x allowed ports of the four address types, all 128 weekday sets, every Segments value without a gap decoded into a nil map; every card (any number, both dates, door values 0..255, PIN 0..999999), time profile and task whose maps are the ones the library builds (doors 1..4, seven weekdays, segments 1..3); and for the text forms String() -> ParseDate / HHmmFromString / TimeFromString / UnmarshalTSV / CardFormatFromString. Rejections: every dddd-dd-dd that is not a calendar date, every date-time with an impossible date or time of day whatever follows it, every two-digit hh:mm beyond 24:00 or with minutes above 59, PINs longer than six characters, every text that is not one of the three control states, task type numbers outside 1..13, forbidden ports per role; the executable reject oracle applied to the harness cases is proved sound for the model. The full statement is REFUTED for Segments values with a gap (theorem C14_segments_gap_refuted; known finding F15). Tie: every generated value goes through json.Marshal and json.Unmarshal into a fresh zero variable (nil maps) under each process zone; the model must produce the same JSON tree and the same decoded value - scalars, maps and the composites Card, TimeProfile, Task alike.",
     "level_note": "Domain notes: a Card without dates is outside the JSON domain (Card.UnmarshalJSON demands both dates; TimeProfile and Task accept the zero date); composite maps with other key sets than the library's own (doors beyond 1..4, partial weekday maps) are compared observationally on the Go side only. encoding/json's text<->tree step and Go's zone-abbreviation parsing are exercised, not modelled (the model accepts any text after the civil prefix, as the repaired code does). F12 (nil-map panic) and F13 (+0545-style abbreviations) were found by this check and repaired; F15 (Segments with a gap) is a known finding: the library's own test pins the encoding that loses the positions. Trusted: Coq kernel + vm_compute (enumerations of 100/10000 numerals, 65536 versions, 256 bytes, 128 weekday sets); hand transcription of types/*.go JSON and text methods.",
-    "rule": "per zone: random dates, date-times (abbreviation taken from Go), composites; once: HH:mm, PIN boundaries, control states 0..5, task types, versions, MACs, 4x40 addresses with boundary ports, weekday sets, segments (incl. nil and gapped maps), String()->parser round trips, and the listed boundary texts for every parser. Non-trivial = every round trip and every non-empty text; distinct = distinct Coq case terms.",
+    "rule": "per zone: random dates, date-times (abbreviation taken from Go), composites; once: HH:mm, PIN boundaries, control states 0..5, task types, versions, MACs, 4x40 addresses with boundary ports, weekday sets, segments (incl. nil and gapped maps), String()->parser round trips, and the listed boundary texts for every parser. Non-trivial = every round trip and every non-empty text; distinct = distinct Coq case terms. Plus: dates and noon date-times on each zone's offset-change days, both occurrences of each repeated hour compared as instants, String()->parser round trips on those days, every decoded value re-checked at the end of the run.",
 }
 
 PROPS["C13"] = {
@@ -170,7 +170,7 @@ PROPS["C04"] = {
     "technique": "Coq: explicit Panic outcome in the model of every slice/index/lookup, totality theorems for all byte strings and replies; translator inventory of panic-capable expressions checked against a reviewed baseline; recover()-guarded fuzz streams as correspondence",
     "level_text": "Proved with an explicit Panic outcome for every buffer slice, index, table lookup and unsupported-type branch of the model: decoding any byte string of any length as any of the 65 shipped message types, both dispatchers, the listener's handler, and every API call with in-domain arguments under any configuration and any scripted network never reach Panic; the one table lookup fed by a wire value (door control state) is total; the hex dump the driver formats for every request and received datagram is total and prints every byte exactly once (slices and indices modelled with their bounds). Generated obligation: the inventory of panic-capable expressions (index, slice, unchecked type assertion, panic call) extracted from the current source is contained in the reviewed baseline. Tie: recover()-guarded streams - 40k (thorough 2M) decodes over 4 byte distributions and lengths 0..2048 through Unmarshal / UnmarshalAs / the dispatchers, 6k (300k) API calls with fuzzed replies and edge arguments whose results are rendered with %v and encoding/json, the real Listen path fed through the recording driver - with a sample of each stream evaluated by the model (outcome classes must agree).",
     "level_note": "Partial: arguments outside the modelled domain (e.g. years beyond 9999) and panics inside the Go standard library are covered by the fuzz streams only. The baseline of panic sites is a reviewed list, not a proof that each listed site is safe (the modelled ones are). F6 (ControlState table indexed with the wire byte) was found by this check and repaired.",
-    "rule": "see level_text; non-trivial = 64-byte buffer (decode) / any API call; distinct = distinct Coq case terms of the sampled cases; the Go-side volumes are reported under coverage.extra.",
+    "rule": "see level_text; non-trivial = 64-byte buffer (decode) / any API call; distinct = distinct Coq case terms of the sampled cases; the Go-side volumes are reported under coverage.extra. Plus: codec.Dump over every length 0..300 and random lengths (sampled through the model); every operation on its value path with one / two adjacent fields out of domain; debug-mode clients; a child process that shuts the real listener down with events pending and a slow callback, and starts listeners on unusable ports (a crash is a violation).",
     "trusted_base": API_TRUST,
 }
 
@@ -180,7 +180,7 @@ PROPS["C17"] = {
     "technique": "Coq: heap model (locations, cells, caller-reachability) with an invariant proved over all histories of caller writes / DeviceList / calls; differential histories with mutate-afterwards and buffer-overwrite probes",
     "level_text": "Proved in a heap model of NewUHPPOTE / Device.Clone / DeviceList: construction puts the configuration in a fresh cell that nothing the caller holds can reach, and for EVERY history of caller writes (device array entries, door-name arrays - including those shared with the client through DeviceList -, returned maps), allocations, DeviceList calls and operations the fields routing reads (id, name, address, protocol) are unchanged. Tie: generated histories on the real client (mutations of the caller's slice and door names, of DeviceList's map and its entries) in which every operation is judged against the configuration at construction (C06 routing oracle + C02 reply oracle); every operation's arguments (card, profile, task, reader map, IP slices) are compared before/after the call; every returned value is re-rendered after all transport buffers handed out by the driver were overwritten; Card.Clone / Device.Clone equality and non-sharing probes.",
     "level_note": "The functional model of the operations cannot express sharing; that operations do not modify their arguments, that results do not alias transport buffers and that clones share nothing are decided by the harness probes (direct failures), not by theorems. Trusted: the heap model's transcription of which cells each function allocates, copies and shares.",
-    "rule": "histories of 8-19 steps (mutate caller devices / door names / DeviceList results, operations for configured and unconfigured controllers); non-trivial = every recorded call; distinct = distinct Coq case terms.",
+    "rule": "histories of 8-19 steps (mutate caller devices / door names / DeviceList results, operations for configured and unconfigured controllers); non-trivial = every recorded call; distinct = distinct Coq case terms. Plus: argument probes with structural snapshots (partial / empty / nil maps, a passcode window of a larger table), clone probes writing through original and clone, clients without controllers with entries injected into DeviceList's map, a recording driver that overwrites the address and request it was handed, the real-driver discovery stream.",
     "trusted_base": API_TRUST,
 }
 
@@ -192,7 +192,7 @@ PROPS["C10"] = {
     "technique": "Coq: two-process transition system (receiver, unbuffered pipe, dispatcher) with an invariant over all interleavings; the real Listen on a loopback UDP port fed by 1-3 sender sockets",
     "level_text": "Proved for every interleaving of the receiver goroutine, the rendezvous on the unbuffered pipe and the dispatcher goroutine, and every finite datagram sequence: at every reachable state the delivered events are a prefix, in arrival order, of the statuses of the valid datagrams consumed so far and the error callbacks are exactly the invalid ones; at quiescence every valid event has been delivered exactly once and OnConnected came first; the handler never panics. Tie: the REAL listener (ut0311.Listen, uhppote.listen, Listen's dispatcher) bound to a loopback port, 24 (thorough 400) start/send/stop sessions re-binding the same port immediately, sequences of 5-45 (50-500) datagrams mixing valid events (all field pools), v6.62 (0x19) events and every malformed class incl. empty and > 2048-byte datagrams from 1-3 sender sockets; observed callbacks = model; oracle = flat event specification; OnConnected once and first, Listen returns nil, delivered statuses unchanged afterwards.",
     "level_note": "Partial: goroutine scheduling and UDP delivery are the runtime's; the harness sends one datagram at a time and waits for its callback, so loss would show as a time-out failure (never as a silent pass). Listen does not join its dispatcher goroutine: the last OnEvent may still run when Listen returns - the property does not forbid that.",
-    "rule": "sessions as described; non-trivial = every session (>= 5 datagrams); distinct = distinct Coq case terms (one per session); datagram totals under coverage.extra.",
+    "rule": "sessions as described; non-trivial = every session (>= 5 datagrams); distinct = distinct Coq case terms (one per session); datagram totals under coverage.extra. Plus: burst sessions (back to back from one and from three sockets), lifecycle child (crash, hang, event read before the stop not delivered, missing error on an unusable port).",
     "trusted_base": NET_TRUST,
 }
 
@@ -203,7 +203,7 @@ PROPS["C08"] = {
     "technique": "Coq: timed model of the fixed-bind-port lock/deadline protocol, own-reply theorem for any number of calls in any service order (refuted for the pre-repair policy); lock-set discipline proved sound in a trace model of mutexes and decided on the synchronisation skeleton the translator extracts from the source; real driver against a loopback controller farm whose reply is a function of the request; Go race detector run",
     "level_text": "PARTIAL. Proved on the timed model (mutex serving order arbitrary; deadline after the lock; a datagram addressed to the port goes to whoever holds it): every call whose controller answers within T of the request being sent returns its own reply, for any number of calls, however long each waited for the port; the pre-repair policy (deadline before the lock) is refuted by a three-call witness. Tie: the real ut0311 driver against a loopback UDP/TCP controller farm that echoes the request's index, 2-8 (thorough up to 24) goroutines per scenario on one client, mixed broadcast / connected-UDP / TCP paths, bind port 0 and a fixed bind port, reply delays 0..185 ms with T = 300 ms; outcome per call (own / crossed / time-out) compared with the model in the order in which the farm saw the requests; a failing scenario is re-run and reported only if it fails twice. The same load plus discovery while replies are arriving and listener bursts runs in a child process built with -race; any report with a frame inside the library is a violation. Static half: the translator extracts, for every function of package uhppote that starts goroutines, each variable assigned inside a goroutine or after the first go statement with all its accesses (thread, read/write, mutexes lexically held); Coq decides the lock-set discipline on it (generated obligation C08_source_disciplined; the pre-repair Broadcast is rejected) and proves the discipline sound: in every valid trace two accesses made under the same mutex are separated by Unlock-then-Lock, i.e. ordered by happens-before.",
     "level_note": "Not a theorem: memory-level interleavings of the real binary, goroutine scheduling, kernel UDP queues (exercised, not proved); the static skeleton is lexical (variables of the goroutine-starting function, mutexes locked in the same statement list) - sharing through pointers sent over channels or through struct fields is seen by the race detector only; the closed flag of ut0311.Listen is a reviewed exception (ordered by the socket close). Replies that arrive after their call has given up are delivered to the next holder of a shared port - inherent to the protocol, modelled, and outside what the property quantifies over (delays below the timeout). F9 (race on the reply list in Broadcast) and F10 (deadline taken before the lock) were found by this check and repaired.",
-    "rule": "scenarios alternate fixed / port-0; non-trivial = every scenario (>= 2 concurrent calls); distinct = distinct Coq case terms; call totals and the race-detector summary under coverage.extra.",
+    "rule": "scenarios alternate fixed / port-0; non-trivial = every scenario (>= 2 concurrent calls); distinct = distinct Coq case terms; call totals and the race-detector summary under coverage.extra. Plus: two clients sharing one fixed bind port under different bind addresses; the race child also runs all operation kinds concurrently on one client through a stateless driver, listener bursts and shutdown.",
     "trusted_base": NET_TRUST,
 }
 PROPS["C09"] = {
@@ -212,7 +212,7 @@ PROPS["C09"] = {
     "technique": "Coq: bounds on hold / return times in the timed lock model for arbitrary arrivals, resource footprint balance by induction; real driver against fault behaviours with wall-clock, /proc/self/fd and goroutine accounting",
     "level_text": "PARTIAL. Proved on the timed model: whatever arrives (replies, strays, a flood, nothing) a call returns no later than its deadline, and if it fails for lack of an acceptable datagram exactly at its deadline; with the deadline after the lock each call holds a shared port for at most T; a reply before the deadline is accepted; the socket/goroutine footprint of any sequence of driver calls is balanced. Tie: the real driver against the farm's behaviours {no reply, late reply, stray flood until the deadline, TCP accept-and-stall, TCP refused, ICMP refused, reply in time, reply 70 ms before the deadline} on the three paths with bind port 0 and fixed, wall-clock duration of every call judged against T = 300 ms (+150 ms slack, -5 ms), and the number of socket descriptors in /proc/self/fd and of goroutines compared before and after all calls (GC disabled so that no finalizer closes a forgotten socket).",
     "level_note": "Wall-clock bounds and descriptor release are observed, not proved; timing verdicts use generous margins and a failing call is retried (stale datagrams drained first). Trusted: as C08.",
-    "rule": "13 fault cases x rounds + batches of 6 concurrent calls and a discovery; non-trivial = all; distinct = distinct Coq case terms (durations included).",
+    "rule": "13 fault cases x rounds + batches of 6 concurrent calls and a discovery; non-trivial = all; distinct = distinct Coq case terms (durations included). Plus: TCP accept-after-SYN-retransmit then stall; discovery queued behind another call on the fixed port; lifecycle child (hang / goroutine leak after failed listener starts); a call on the fixed port after a refused TCP connect (run last).",
     "trusted_base": NET_TRUST,
 }
 
